@@ -148,6 +148,64 @@ type c12Shape struct {
 	Int   bool      `json:"int,omitempty"`
 	Dial  bool      `json:"dial,omitempty"`
 	Empty bool      `json:"emptytype,omitempty"` // tag other: "type" is "" instead of "foo"
+	// content variant of the raw (json.RawMessage) members the code decodes on its own: data of
+	// message / control (answer / offer, forceMute), details of error (already_joined). The code
+	// guards all of them, the model does not distinguish them. 0 default; see c12RawData / c12ErrDetails
+	V int `json:"v,omitempty"`
+}
+
+const c12Variants = 8
+
+// data member of message / control; ok=false: member missing
+func c12RawData(v int, control bool, ctx *c12Ctx) (interface{}, bool) {
+	own := c12SidStr(0, ctx)
+	switch v % c12Variants {
+	case 1:
+		if control {
+			return map[string]interface{}{"action": "forceMute", "peerId": own}, true
+		}
+		return map[string]interface{}{"type": "offer", "from": own, "to": own, "roomType": "video", "payload": map[string]interface{}{"sdp": "x"}}, true
+	case 2:
+		if control {
+			return map[string]interface{}{"action": "forceMute", "peerId": 5}, true
+		}
+		return map[string]interface{}{"type": "answer", "from": 5}, true
+	case 3:
+		if control {
+			return map[string]interface{}{"action": "forceMute"}, true
+		}
+		return map[string]interface{}{"type": "offer", "payload": nil}, true
+	case 4:
+		return []int{1, 2}, true
+	case 5:
+		return "str", true
+	case 6:
+		return nil, false
+	case 7:
+		return nil, true
+	}
+	return map[string]interface{}{"type": "x"}, true
+}
+
+// details member of error; ok=false: member missing
+func c12ErrDetails(v int, ctx *c12Ctx) (interface{}, bool) {
+	switch v % c12Variants {
+	case 1:
+		return map[string]interface{}{}, true
+	case 2:
+		return map[string]interface{}{"room": nil}, true
+	case 3:
+		return map[string]interface{}{"room": map[string]interface{}{}}, true
+	case 4:
+		return "str", true
+	case 5:
+		return []int{1}, true
+	case 6:
+		return nil, false
+	case 7:
+		return nil, true
+	}
+	return map[string]interface{}{"room": map[string]interface{}{"roomid": ctx.remoteRoom}}, true
 }
 
 var c12Tags = []string{"welcome", "hello", "error", "bye", "room", "message", "control", "event", "transient", "internal", "dialout", "other"}
@@ -249,8 +307,11 @@ func c12Users(l []c12Ent, ctx *c12Ctx) []interface{} {
 	return out
 }
 
-func c12SRDoc(s *c12SR) map[string]interface{} {
-	d := map[string]interface{}{"data": map[string]interface{}{"type": "x"}}
+func c12SRDoc(s *c12SR, v int, control bool, ctx *c12Ctx) map[string]interface{} {
+	d := map[string]interface{}{}
+	if data, ok := c12RawData(v, control, ctx); ok {
+		d["data"] = data
+	}
 	if s.Sender {
 		d["sender"] = map[string]interface{}{"type": "session", "sessionid": c12RemoteSid}
 	}
@@ -283,8 +344,11 @@ func (s *c12Shape) doc(ctx *c12Ctx) []byte {
 		d["id"] = "x-other"
 	}
 	if s.Err != "" {
-		d["error"] = map[string]interface{}{"code": c12ErrCode[s.Err], "message": "m",
-			"details": map[string]interface{}{"room": map[string]interface{}{"roomid": ctx.remoteRoom}}}
+		e := map[string]interface{}{"code": c12ErrCode[s.Err], "message": "m"}
+		if det, ok := c12ErrDetails(s.V, ctx); ok {
+			e["details"] = det
+		}
+		d["error"] = e
 	}
 	switch s.Wel {
 	case "fed":
@@ -317,10 +381,10 @@ func (s *c12Shape) doc(ctx *c12Ctx) []byte {
 		d["room"] = map[string]interface{}{"roomid": "some-other-room"}
 	}
 	if s.Msg != nil {
-		d["message"] = c12SRDoc(s.Msg)
+		d["message"] = c12SRDoc(s.Msg, s.V, false, ctx)
 	}
 	if s.Ctl != nil {
-		d["control"] = c12SRDoc(s.Ctl)
+		d["control"] = c12SRDoc(s.Ctl, s.V, true, ctx)
 	}
 	if e := s.Ev; e != nil {
 		ev := map[string]interface{}{}
